@@ -156,10 +156,10 @@ PROPS["C04"] = {
     "level": "model_checking",
     "harness": ["C04_"],
     "tiers": {
-        "quick": {"timeout": "20s", "maxsteps": 12000000, "bounds": "every byte string of length 1..3 (all 256 values per byte) as script source, 1..2 as module body; scanner progress on every byte string of length 1..2; 4 seed programs with one arbitrary byte replaced or inserted at every position; 7 templates whose identifier is 1..4 arbitrary identifier-shaped bytes; 20 templates x 17 identifier substitutions x 13 statement substitutions x 4 configurations (module maps, predeclared variables)", "cross": 2},
-        "thorough": {"timeout": "60s", "maxsteps": 12000000, "bounds": "byte strings of length 1..4 (module body 1..3); 10 seed programs with one arbitrary byte replaced/inserted; templates as quick", "cross": 3},
+        "quick": {"timeout": "20s", "maxsteps": 12000000, "casecap": 128, "bounds": "every byte string of length 1..3 (all 256 values per byte) as script source, 1..2 as module body; scanner progress on every byte string of length 1..2; 5 seed programs (one ending in block + line comments) with one arbitrary byte replaced or inserted at every position; 13 literal/comment openers (/* // \" ` ' 0x 1e 1. a. ...) followed by 1..2 arbitrary bytes; 7 templates whose identifier is 1..4 arbitrary identifier-shaped bytes; 20 templates x 17 identifier substitutions x 13 statement substitutions x 4 configurations (module maps, predeclared variables)", "cross": 2},
+        "thorough": {"timeout": "60s", "maxsteps": 12000000, "casecap": 128, "bounds": "byte strings of length 1..4 (module body 1..3); 10 seed programs with one arbitrary byte replaced/inserted; templates as quick", "cross": 3},
     },
-    "reach": {"C04_Bytes": ["bytes"], "C04_ModuleBody": ["module"], "C04_SeedHole": ["seedhole"], "C04_Templates": ["templates"], "C04_ScannerProgress": ["scanner"], "C04_SymIdent": ["symident"]},
+    "reach": {"C04_Bytes": ["bytes"], "C04_ModuleBody": ["module"], "C04_SeedHole": ["seedhole"], "C04_Openers": ["openers"], "C04_Templates": ["templates"], "C04_ScannerProgress": ["scanner"], "C04_SymIdent": ["symident"]},
     "assumptions": [
         "unicode.IsLetter/IsDigit/IsSpace on a symbolic (non-ASCII) rune are uninterpreted predicates of the rune (over-approximation, sound for totality; counterexamples are replayed natively)",
         "the template family is a finite-domain case split (no wide variable); the byte families are decided for all 256 values of every byte",
@@ -173,7 +173,7 @@ PROPS["C11"] = {
     "level": "model_checking",
     "harness": ["C11_"],
     "tiers": {
-        "quick": {"timeout": "20s", "maxsteps": 12000000, "bounds": "17 scope programs (compound assignment, ++/--, selector assignment through global/local/free variables, closures, shadowing, loops, variadics, recursion, failing operations) x {function body, module function, consistent renaming, each marked sub-expression wrapped in an immediately-invoked function literal}; inputs a, b int64 (or -1..3 where they bound loops/recursion), c bool", "cross": 2},
+        "quick": {"timeout": "20s", "maxsteps": 12000000, "bounds": "20 scope programs (copied closures, a block-scoped variable captured by a closure that outlives the block followed by for-in loops re-using its slot, compound assignment, ++/--, selector assignment through global/local/free variables, closures, shadowing, loops, variadics, recursion, failing operations) x {function body, module function, consistent renaming, each marked sub-expression wrapped in an immediately-invoked function literal}; inputs a, b int64 (or -1..3 where they bound loops/recursion), c bool", "cross": 2},
         "thorough": {"timeout": "60s", "maxsteps": 12000000, "bounds": "as quick", "cross": 3},
     },
     "reach": {"C11_Relocate": ["relocate"]},
@@ -187,14 +187,17 @@ PROPS["C12"] = {
     "level": "translation_validation",
     "harness": ["C12_"],
     "tiers": {
-        "quick": {"timeout": "20s", "maxsteps": 12000000, "bounds": "constant de-duplication: 6 constant-heavy programs (incl. a source module and nested functions) + 44 catalog + 9 failing programs compiled with the raw Compiler API, run before and after the real RemoveDuplicates on the same symbolic inputs (globals, error text and positions compared); pools of 2..4 constants with symbolic int/float/char/string values", "cross": 1},
-        "thorough": {"timeout": "60s", "maxsteps": 12000000, "bounds": "as quick", "cross": 2},
+        "quick": {"timeout": "20s", "maxsteps": 12000000, "bounds": "11 constant-heavy programs (source modules imported twice, nested functions, two builtin modules math/text, two object modules without __module_name__ holding bools/undefined/arrays/maps/errors/bytes, a failing program with a multi-line position) + 44 catalog + 9 failing programs compiled with the raw Compiler API. De-duplication: run before and after the real RemoveDuplicates on the same symbolic inputs a, b (int64), c (bool); globals, error text and positions compared; pool soundness checked. Write/read-back: the same programs, with and without de-duplication first, run before and after the codec; pools of 2..4 constants with symbolic int/float/char/string values", "cross": 2},
+        "thorough": {"timeout": "60s", "maxsteps": 12000000, "bounds": "as quick", "cross": 3},
     },
-    "reach": {"C12_Dedup": ["dedup"], "C12_SymbolicPool": ["pool"]},
-    "assumptions": ["SERIALIZATION IS NOT CLAIMED: Bytecode.Encode/Decode go through encoding/gob, which is reflection-driven and cannot be executed by the engine; only the de-duplication half of the property is decided (see DESIGN.md)"],
-    "outside": "encoding/gob round trip; user functions inside constants",
-    "stubs": COMMON_STUBS,
-    "level_text": "translation validation of constant de-duplication: each program is run on symbolic inputs before and after the real RemoveDuplicates and the structural post-conditions are checked; the serialization half of the property is outside the technique's reach and is not claimed",
+    "reach": {"C12_WriteRead": ["writeread"], "C12_Dedup": ["dedup"], "C12_SymbolicPool": ["pool"]},
+    "assumptions": [
+        "encoding/gob is reflection-driven and cannot be executed by the engine: in the engine the codec is a MODEL (harness/c12.go gobModel: structurally equal value, every pointer fresh so the true/false/undefined singletons are lost, func fields dropped, empty slices and maps nil, SourceFile.set unset) followed by the REAL fixDecodedObject; the native replay of every counterexample and of sampled passing paths uses the real Bytecode.Encode/Decode, which is what validates the model",
+        "constants are the kinds the compiler and RemoveDuplicates accept at top level (int, float, char, string, compiled function, immutable map); RemoveDuplicates panics by design on any other top-level constant type",
+    ],
+    "outside": "the gob wire format itself (version skew, truncated or hostile input to Decode); user functions inside object-module constants (Decode rejects them by design); the CLI's file handling",
+    "stubs": COMMON_STUBS + ["encoding/gob Encode+Decode replaced by gobModel in the engine (real codec in native replay)"],
+    "level_text": "translation validation: each program is run on symbolic inputs before and after the real RemoveDuplicates, and before and after write-out/read-back (gob modelled, tengo's decode fix-up real), comparing results, errors and positions; structural post-conditions of the pool are checked",
 }
 
 PROPS["C13"] = {
@@ -260,9 +263,10 @@ PROPS["C08"] = {
     "level": "model_checking",
     "harness": ["C08_"],
     "tiers": {
-        "quick": {"timeout": "20s", "maxsteps": 20000000, "bounds": "12 programs that index/iterate/slice shared string constants, use array/map constants, closures, a source module, a builtin module, a mutable input array, failing programs (error-position formatting); two clones run as two logged activities with symbolic inputs (a, b per clone); 8x8 method pairs {Run, RunContext, Get, GetAll, Set, IsDefined, Clone, Size} on one Compiled over 3 programs", "cross": 0},
+        "quick": {"timeout": "20s", "maxsteps": 20000000, "bounds": "15 programs that index/iterate/slice shared string constants, use array/map constants, closures, a source module, a builtin module, mutable input containers (array; error value with a map/array payload; nested map/array/bytes), state left in globals by a previous run, failing programs (error-position formatting); clones taken from a fresh or an already-run original; two clones run as two logged activities with symbolic inputs (a, b per clone); the original compared with an identically built object afterwards; 8x8 method pairs {Run, RunContext, Get, GetAll, Set, IsDefined, Clone, Size} on one Compiled over 3 programs", "cross": 0},
         "thorough": {"timeout": "60s", "maxsteps": 20000000, "bounds": "as quick", "cross": 0},
     },
+    "replay_retries": 4,
     "reach": {"C08_Clones": ["clones"], "C08_Methods": ["methods"]},
     "race": True,
     "assumptions": [
@@ -331,7 +335,7 @@ PROPS["C20"] = {
     "level": "model_checking",
     "harness": ["C20_"],
     "tiers": {
-        "quick": {"timeout": "20s", "maxsteps": 12000000, "bounds": "precedence: `a OP1 b OP2 c` with OP1 of 1..2 arbitrary bytes and OP2 over the 19 documented binary operators; 15 unary/ternary groupings; literals: 1..3 arbitrary bytes starting with a digit, '.', or a quote, compared with go/scanner + strconv (executed by the engine); semicolons: a line of 1..2 arbitrary bytes followed by newline / comment forms, compared with go/scanner; print/re-parse: 12 statement forms x expression trees of depth 1 over 12 leaves, 19 binary and 4 unary operators, ternary, parentheses", "cross": 2},
+        "quick": {"timeout": "20s", "maxsteps": 12000000, "bounds": "precedence: `a OP1 b OP2 c` with OP1 of 1..2 arbitrary bytes and OP2 over the 19 documented binary operators; 19 unary/ternary groupings read off the AST (not the printer); literals: 1..3 arbitrary bytes starting with a digit, '.', or a quote, compared with go/scanner + strconv (executed by the engine); semicolons: a line of 1..2 arbitrary bytes followed by one of 8 newline / comment layouts (line comment, block comment, block then line comment, two block comments, multi-line block comment), compared with go/scanner; print/re-parse: 12 statement forms x expression trees of depth 1 over 14 leaves (incl. signed operands, so nested unary operators occur), 19 binary and 4 unary operators, ternary, parentheses", "cross": 2},
         "thorough": {"timeout": "60s", "maxsteps": 12000000, "bounds": "precedence with both operators of 1..2 arbitrary bytes; literals of 1..4 bytes; lines of 1..3 bytes; print/re-parse with expression depth 2", "cross": 3},
     },
     "reach": {"C20_Precedence": ["left", "right"], "C20_UnaryTernary": ["unary"], "C20_Literals": ["literals"], "C20_PrintReparse": ["reparse"], "C20_Semicolons": ["semicolons"]},
